@@ -507,6 +507,7 @@ FRAGMENTS = [
     ("methods", frag_methods, None),
     ("constants", frag_constants, None),
 ]
+from .frag_tax_report import frag_tax_report; FRAGMENTS.append(("tax_report", frag_tax_report, None))  # noqa: E402,E702  (C14)
 
 HEADER = """(** GENERATED from /repo's working tree by harness/translate/gen.py -- do not edit. *)
 From RP2V Require Import Base.Prelude Base.Time Base.Dec Model.Types.
